@@ -310,9 +310,17 @@ func UpdateCheckpoint(outCli client.Redis, localCheckpoint string, ids []string)
 			Version: config.Version,
 		}
 		if len(cpName) > 0 { // restore old checkpoint
-			cpKv, _, err = GetCheckpoint(outCli, cpName, ids)
+			var cpDb int
+			cpKv, cpDb, err = GetCheckpoint(outCli, cpName, ids)
 			if err != nil {
 				return err
+			}
+			if cpDb >= 0 {
+				// GetCheckpoint scans all databases and leaves the connection on an arbitrary
+				// one: write the re-keyed checkpoint into the database that held the old one
+				if err = redis.SelectDB(outCli, uint32(cpDb)); err != nil {
+					return err
+				}
 			}
 		}
 
